@@ -150,7 +150,7 @@ Definition field_decl_ok (inoneof : bool) (num : N) (p : property) (df : dfield)
   f_label df = (if is_repeated (prop_field p) then LRepeated else LOptional) /\
   (* optionality: proto3_optional exactly for the properties declared optional; cardinality
      "repeated" has no presence, so an optional array / map is a plain repeated field *)
-  f_opt3 df = (prop_optional p && negb (is_repeated (prop_field p))) /\
+  f_opt3 df = (prop_optional p && negb (is_repeated (prop_field p)) && negb inoneof) /\
   f_oneof df = inoneof.
 
 (* the fields of a message are exactly the declared properties, in order, numbered from
